@@ -387,6 +387,43 @@ def explore (P : Protocol) (maxFire : Nat) (fuel : Nat) (s : State) (pre : List 
     (cap : Nat) (acc : List (List Action × State)) : List (List Action × State) :=
   (exploreAux P maxFire cap fuel s pre (acc.length, acc)).2
 
+/-! ### Does the failure reach the caller?  (`__exit__` must not swallow it) -/
+
+/-- what a method returns, as far as its truth value is concerned -/
+inductive RetVal
+  | none      -- falls off the end / `return` / `return None`
+  | self      -- `return self`
+  | falsy     -- a literal False / 0
+  | value     -- any other expression (may be truthy)
+  deriving DecidableEq, Repr, Inhabited
+
+def RetVal.mayBeTruthy : RetVal → Bool
+  | .none => false
+  | .falsy => false
+  | .self => true
+  | .value => true
+
+/-- body of `BaseProgress.__exit__` -/
+inductive ExitDelegation
+  | dropsResult              -- self.exit()            (returns None)
+  | returnsExit              -- return self.exit()
+  | returnsConst (v : RetVal) -- self.exit(); return <constant>
+  deriving DecidableEq, Repr, Inhabited
+
+/-- value of `__exit__` given what `exit()` returns -/
+def ExitDelegation.value : ExitDelegation → RetVal → RetVal
+  | .dropsResult, _ => .none
+  | .returnsExit, r => r
+  | .returnsConst v, _ => v
+
+/-- does the exception raised by work item `fail` reach the caller of the API?  A `with`
+    statement swallows it iff `__exit__` returns a truthy value; `finally` and the bare
+    style never do. -/
+def apiPropagates (style : GuardStyle) (N : Nat) (fail : Option Nat) (exitTruthy : Bool) : Bool :=
+  (runBody fail 0 N).2 && (match style with
+    | .withStmt => !exitTruthy
+    | _ => true)
+
 /-! ### Other threads / processes the library starts: executor pools -/
 
 inductive SpawnKind
